@@ -1,7 +1,8 @@
 """C09 — per-module source registry behaves as keyed sets for every source kind (offline oracle, plain build)."""
 from vf import gen, corecheck as cc, framework as fw, model_registry
 
-RULE = ("registry profile: 15-90 register/deregister calls per scenario over descriptors, timers (periods from 1 ns to 2^63-1 ns "
+RULE = ("[counts are also read per source kind; M_SRC_DUP descriptors are keyed by the descriptor registered; batch timeout and token bucket are set and cleared on the periods of the user's timers] "
+        "registry profile: 15-90 register/deregister calls per scenario over descriptors, timers (periods from 1 ns to 2^63-1 ns "
         "incl. pairs 2^32 / 2^31+7 apart), signals, paths, pids, tasks, thresholds (pairs with equal sums) and topic subscriptions, "
         "keys drawn from small colliding pools, on idle, running, paused and stopped modules, interleaved with pause/resume/stop/"
         "start, invalid parameter combinations, with and without loop runs (no event is ever produced, so the reference sets are "
